@@ -218,8 +218,8 @@ def conversions(case, ctx):
         ctx.count('scalar_vs_array')
         if sc != conv[i]:
             ctx.violation('scalar-differs-from-array/%s' % unit, {'pair': (s, f), 'scalar': str(sc), 'array': str(conv[i])})
-        if f:
-            ctx.distinct((unit, s, f))
+        if f and i % 97 == 0:
+            ctx.distinct((unit, s, f))      # a sample of the pairs: keeps the signature set bounded
     ctx.sample({'case': case, 'unit': unit, 'pairs': pairs[:4]}, limit=1)
 
 
